@@ -8,14 +8,18 @@ package c16
 import (
 	"bufio"
 	"bytes"
+	"context"
 	"encoding/hex"
 	"encoding/json"
 	"fmt"
+	"math"
 	"os"
 	"os/exec"
+	"regexp"
 	"strings"
 	"sync"
 	"testing"
+	"time"
 
 	"golang.org/x/crypto/pbkdf2"
 	"golang.org/x/crypto/scrypt"
@@ -29,13 +33,14 @@ type num struct {
 	L   []int64 `json:"l"` // little-endian limbs, base 4096
 }
 
+// Int converts the limbs to a Go int; the magnitude of math.MinInt (2^63) needs the unsigned detour.
 func (n num) Int() int {
-	var v int64
+	var v uint64
 	for i := len(n.L) - 1; i >= 0; i-- {
-		v = v*4096 + n.L[i]
+		v = v*4096 + uint64(n.L[i])
 	}
 	if n.Neg {
-		v = -v
+		return int(-int64(v)) // two's complement: -(2^63) is MinInt
 	}
 	return int(v)
 }
@@ -181,12 +186,16 @@ func runPartition(dir string, all []args) (map[int]obs, string) {
 	for {
 		os.Remove(outp)
 		// 8 GiB of address space: far above anything a non-excluded case needs, far below what a missing guard asks for
-		cmd := exec.Command("sh", "-c", `ulimit -v 8388608; exec "$0" -test.run='^TestChild$' -test.timeout=1200s`, os.Args[0])
+		// watchdog: a child that does not finish (an accepted tuple that computes for ever) is an infrastructure result, never a verdict
+		wd, cancel := context.WithTimeout(context.Background(), 15*time.Minute)
+		cmd := exec.CommandContext(wd, "sh", "-c", `ulimit -v 8388608; exec "$0" -test.run='^TestChild$' -test.timeout=1200s`, os.Args[0])
 		cmd.Env = append(os.Environ(), "VERIF_C16_CHILD_IN="+inp, "VERIF_C16_CHILD_OUT="+outp, fmt.Sprint("VERIF_C16_CHILD_FROM=", from), "GOMAXPROCS=2")
 		var stderr bytes.Buffer
 		cmd.Stderr = &stderr
 		cmd.Stdout = &stderr
 		runErr := cmd.Run()
+		timedOut := wd.Err() != nil
+		cancel()
 		last, done := -1, true
 		if f, err := os.Open(outp); err == nil {
 			sc := bufio.NewScanner(f)
@@ -210,12 +219,22 @@ func runPartition(dir string, all []args) (map[int]obs, string) {
 			return res, ""
 		}
 		msg := stderr.String()
+		if timedOut || strings.Contains(msg, "test timed out") {
+			return nil, fmt.Sprintf("watchdog: child did not finish (last case begun: %d); not a verdict\n%s", last, tail(msg, 1500))
+		}
 		if last < 0 || done {
 			return nil, fmt.Sprintf("child failed outside a case: %v\n%s", runErr, tail(msg, 3000))
 		}
-		memory := strings.Contains(msg, "out of memory") || strings.Contains(msg, "cannot allocate memory") || strings.Contains(msg, "makeslice")
-		if !memory {
-			return nil, fmt.Sprintf("child died in case %d for an unclassified reason: %v\n%s", last, runErr, tail(msg, 3000))
+		// The only death that counts as an observation of the code under test: the Go runtime refused a request of at
+		// least 1 GiB (deterministic under the address-space limit, independent of the machine's state) and the request
+		// came from scrypt.Key.  Anything else (kernel OOM kill, small allocation failing, unknown crash) is environment.
+		m := allocRe.FindStringSubmatch(msg)
+		var size uint64
+		if m != nil {
+			fmt.Sscan(m[1], &size)
+		}
+		if m == nil || size < 1<<30 || !strings.Contains(msg, "golang.org/x/crypto/scrypt.Key(") {
+			return nil, fmt.Sprintf("child died in case %d for a reason that is not a refused huge allocation inside scrypt.Key: %v\n%s", last, runErr, tail(msg, 3000))
 		}
 		first := msg
 		if i := strings.Index(msg, "\n"); i > 0 {
@@ -229,6 +248,8 @@ func runPartition(dir string, all []args) (map[int]obs, string) {
 		}
 	}
 }
+
+var allocRe = regexp.MustCompile(`out of memory: cannot allocate (\d+)-byte block`)
 
 func tail(s string, n int) string {
 	if len(s) > n {
@@ -301,6 +322,7 @@ func TestReplay(t *testing.T) {
 	}
 	var samples []map[string]any
 	counts := map[string]int{}
+	boundary := map[string]int{} // tuples actually run on scrypt.Key with a parameter at an end of the int range
 	for _, a := range all {
 		o, ok := res[a.I]
 		if !ok {
@@ -312,6 +334,14 @@ func TestReplay(t *testing.T) {
 		}
 		key := fmt.Sprintf("%d|%d|%d|%d", a.N, a.R, a.P, a.KeyLen)
 		out.Case(key)
+		for name, v := range map[string]int{"N": a.N, "r": a.R, "p": a.P, "keyLen": a.KeyLen} {
+			if v == math.MinInt {
+				boundary[name+"=MinInt"]++
+			}
+			if v == math.MaxInt {
+				boundary[name+"=MaxInt"]++
+			}
+		}
 		counts[want+"->"+o.Outcome]++
 		if o.Outcome != code && !(o.Outcome == "panic" && a.KeyLen <= 0) {
 			counts["differs-from-transcription"]++
@@ -325,6 +355,9 @@ func TestReplay(t *testing.T) {
 			}
 			continue
 		case "alloc":
+			if want != "error" { // a tuple the property accepts ran out of address space: environment, not a verdict
+				t.Fatalf("valid tuple N=%d r=%d p=%d keyLen=%d could not allocate under the address-space limit: %s", a.N, a.R, a.P, a.KeyLen, o.Msg)
+			}
 			viol("scrypt-guard-missed-huge-allocation", "scrypt.Key did not reject parameters the property says yield an error: it went on to allocate", a, o, want)
 			continue
 		case "error+key":
@@ -366,6 +399,7 @@ func TestReplay(t *testing.T) {
 		out.Sample(map[string]any{"N": a.N, "r": a.R, "p": a.P, "keyLen": a.KeyLen, "outcome": o.Outcome})
 	}
 	out.Extra["outcomes"] = counts
+	out.Extra["int_range_ends_run"] = boundary
 	out.Extra["excluded_not_run"] = excluded
 	out.Extra["valid_but_too_slow_not_run"] = heavy
 	if p := os.Getenv("VERIF_C16_SAMPLES"); p != "" { // for the hashlib.scrypt amplifier
